@@ -1559,10 +1559,20 @@ class Controller:
             return None
 
         self._send_hci_command_status(hci.HCI_COMMAND_STATUS_PENDING, command.op_code)
-        self.send_lmp_packet(
-            connection.peer_address,
-            lmp.LmpFeaturesReq(self.lmp_features_bytes[:8]),
-        )
+        try:
+            self.send_lmp_packet(
+                connection.peer_address,
+                lmp.LmpFeaturesReq(self.lmp_features_bytes[:8]),
+            )
+        except InvalidArgumentError:
+            # The peer has left the link
+            self.send_hci_packet(
+                hci.HCI_Read_Remote_Supported_Features_Complete_Event(
+                    status=hci.HCI_ErrorCode.LMP_OR_LL_RESPONSE_TIMEOUT_ERROR,
+                    connection_handle=connection.handle,
+                    lmp_features=bytes(8),
+                )
+            )
 
         return None
 
@@ -1580,15 +1590,27 @@ class Controller:
             return None
 
         self._send_hci_command_status(hci.HCI_COMMAND_STATUS_PENDING, command.op_code)
-        self.send_lmp_packet(
-            connection.peer_address,
-            lmp.LmpFeaturesReqExt(
-                features_page=command.page_number,
-                features=self.lmp_features_bytes[
-                    command.page_number * 8 : (command.page_number + 1) * 8
-                ],
-            ),
-        )
+        try:
+            self.send_lmp_packet(
+                connection.peer_address,
+                lmp.LmpFeaturesReqExt(
+                    features_page=command.page_number,
+                    features=self.lmp_features_bytes[
+                        command.page_number * 8 : (command.page_number + 1) * 8
+                    ],
+                ),
+            )
+        except InvalidArgumentError:
+            # The peer has left the link
+            self.send_hci_packet(
+                hci.HCI_Read_Remote_Extended_Features_Complete_Event(
+                    status=hci.HCI_ErrorCode.LMP_OR_LL_RESPONSE_TIMEOUT_ERROR,
+                    connection_handle=connection.handle,
+                    page_number=command.page_number,
+                    maximum_page_number=0,
+                    extended_lmp_features=bytes(8),
+                )
+            )
 
         return None
 
@@ -2389,14 +2411,26 @@ class Controller:
         # First, say that the command is pending
         self._send_hci_command_status(hci.HCI_COMMAND_STATUS_PENDING, command.op_code)
 
-        if connection.role == hci.Role.CENTRAL:
-            connection.send_ll_control_pdu(
-                ll.FeatureReq(feature_set=self.le_features.value.to_bytes(8, 'little'))
-            )
-        else:
-            connection.send_ll_control_pdu(
-                ll.PeripheralFeatureReq(
-                    feature_set=self.le_features.value.to_bytes(8, 'little')
+        try:
+            if connection.role == hci.Role.CENTRAL:
+                connection.send_ll_control_pdu(
+                    ll.FeatureReq(
+                        feature_set=self.le_features.value.to_bytes(8, 'little')
+                    )
+                )
+            else:
+                connection.send_ll_control_pdu(
+                    ll.PeripheralFeatureReq(
+                        feature_set=self.le_features.value.to_bytes(8, 'little')
+                    )
+                )
+        except InvalidArgumentError:
+            # The peer has left the link
+            self.send_hci_packet(
+                hci.HCI_LE_Read_Remote_Features_Complete_Event(
+                    status=hci.HCI_ErrorCode.LMP_OR_LL_RESPONSE_TIMEOUT_ERROR,
+                    connection_handle=connection.handle,
+                    le_features=bytes(8),
                 )
             )
         return None
